@@ -5,7 +5,7 @@ Basic data transformation adapters.
 import numpy as np
 
 from ..data.grid_spec import NoGrid
-from ..data.tools import get_magnitude, get_units, quantify
+from ..data.tools import Mask, get_magnitude, get_units, mask_specified, quantify
 from ..errors import FinamMetaDataError
 from ..sdk import Adapter
 from ..tools.log_helper import ErrorLogger
@@ -200,5 +200,8 @@ class GridToValue(Adapter):
     def _get_info(self, info):
         info = info.copy_with(grid=None)
         in_info = self.exchange_info(info)
-        out_info = in_info.copy_with(grid=NoGrid())
+        # an explicit mask is laid out on the incoming grid,
+        # the aggregated value has no grid to carry it
+        mask = Mask.FLEX if mask_specified(in_info.mask) else in_info.mask
+        out_info = in_info.copy_with(grid=NoGrid(), mask=mask)
         return out_info
